@@ -130,7 +130,8 @@ pub fn gen(seed: u64, tier: Tier, k: u64) -> Value {
     let variants = if rng.chance(1, 4) {
         vec![
             VariantDef { name: "A".into(), props: vec![PDef { name: "va".into(), kind: PKind::RefTo, col: Col::RefPat(RefPat::Random) }] },
-            VariantDef { name: "B".into(), props: vec![PDef { name: "vb".into(), kind: PKind::UInt, col: Col::Small }] },
+            // a reference in a variant that is not the first one declared, too
+            VariantDef { name: "B".into(), props: vec![PDef { name: "vb".into(), kind: PKind::UInt, col: Col::Small }, PDef { name: "vc".into(), kind: PKind::RefTo, col: Col::RefPat(RefPat::Random) }] },
         ]
     } else {
         vec![]
